@@ -5,7 +5,7 @@ Import ListNotations.
 Open Scope string_scope.
 
 
-(* saml2/client_base.py:create_requested_attribute_node, lines 93-136 *)
+(* saml2/client_base.py:create_requested_attribute_node, lines 93-144 *)
 Definition src2_create_requested_attribute_node (v_requested_attrs : pyval) (v_attribute_converters : pyval) : pyval :=
   let v_items := PErr in
   let v_friendly_name := PErr in
@@ -18,69 +18,91 @@ Definition src2_create_requested_attribute_node (v_requested_attrs : pyval) (v_a
    (py_bind (p2_iter_check v_requested_attrs) (fun it_3 =>
    (match pyfor2 (py_iter2 it_3) [v_friendly_name; v_name; v_name_format; v_is_required; v_converter; v_items] (fun st_4 x_5 => match st_4 with [v_friendly_name; v_name; v_name_format; v_is_required; v_converter; v_items] =>
     (let v_attr := x_5 in
-    (py_bindS (fun n_46 => (ExcS n_46 [v_friendly_name; v_name; v_name_format; v_is_required; v_converter; v_items])) (p2_get v_attr (PStr "friendly_name")) (fun v_friendly_name =>
-    (py_bindS (fun n_45 => (ExcS n_45 [v_friendly_name; v_name; v_name_format; v_is_required; v_converter; v_items])) (p2_get v_attr (PStr "name")) (fun v_name =>
-    (py_bindS (fun n_44 => (ExcS n_44 [v_friendly_name; v_name; v_name_format; v_is_required; v_converter; v_items])) (p2_get v_attr (PStr "name_format")) (fun v_name_format =>
-    (py_bindS (fun n_43 => (ExcS n_43 [v_friendly_name; v_name; v_name_format; v_is_required; v_converter; v_items])) (p2_lower (p2_str (p2_get3 v_attr (PStr "required") (PBool false)))) (fun v_is_required =>
+    (py_bindS (fun n_56 => (ExcS n_56 [v_friendly_name; v_name; v_name_format; v_is_required; v_converter; v_items])) (p2_get v_attr (PStr "friendly_name")) (fun v_friendly_name =>
+    (py_bindS (fun n_55 => (ExcS n_55 [v_friendly_name; v_name; v_name_format; v_is_required; v_converter; v_items])) (p2_get v_attr (PStr "name")) (fun v_name =>
+    (py_bindS (fun n_54 => (ExcS n_54 [v_friendly_name; v_name; v_name_format; v_is_required; v_converter; v_items])) (p2_get v_attr (PStr "name_format")) (fun v_name_format =>
+    (py_bindS (fun n_53 => (ExcS n_53 [v_friendly_name; v_name; v_name_format; v_is_required; v_converter; v_items])) (p2_lower (p2_str (p2_get3 v_attr (PStr "required") (PBool false)))) (fun v_is_required =>
     (match p2_branch (p2_and (p2_not v_name) (p2_not v_friendly_name)) with
     | BTrue => (ExcS "ValueError" [v_friendly_name; v_name; v_name_format; v_is_required; v_converter; v_items])
-    | BFalse => (let k_40 := fun v_converter v_name v_name_format =>
-     (let k_26 := fun v_converter v_friendly_name v_name_format =>
-      (py_bindS (fun n_12 => (ExcS n_12 [v_friendly_name; v_name; v_name_format; v_is_required; v_converter; v_items])) (p2_append v_items (py_bind v_is_required (fun a_8 => (py_bind v_name_format (fun a_9 => (py_bind v_friendly_name (fun a_10 => (py_bind v_name (fun a_11 => (PObj [("__class__", PStr "RequestedAttribute"); ("name", a_11); ("name_format", a_9); ("friendly_name", a_10); ("is_required", a_8)])))))))))) (fun v_items =>
-      (NextS [v_friendly_name; v_name; v_name_format; v_is_required; v_converter; v_items]))) in
+    | BFalse => (let k_50 := fun v_converter v_name v_name_format =>
+     (let k_36 := fun v_converter v_friendly_name v_name_format =>
+      (let k_22 := fun v_converter v_name_format =>
+       (py_bindS (fun n_12 => (ExcS n_12 [v_friendly_name; v_name; v_name_format; v_is_required; v_converter; v_items])) (p2_append v_items (py_bind v_is_required (fun a_8 => (py_bind v_name_format (fun a_9 => (py_bind v_friendly_name (fun a_10 => (py_bind v_name (fun a_11 => (PObj [("__class__", PStr "RequestedAttribute"); ("name", a_11); ("name_format", a_9); ("friendly_name", a_10); ("is_required", a_8)])))))))))) (fun v_items =>
+       (NextS [v_friendly_name; v_name; v_name_format; v_is_required; v_converter; v_items]))) in
+      (match p2_branch (p2_and v_name (p2_not v_name_format)) with
+      | BTrue => (py_bindS (fun n_21 => (ExcS n_21 [v_friendly_name; v_name; v_name_format; v_is_required; v_converter; v_items])) (p2_iter_check v_attribute_converters) (fun it_14 =>
+      (match pyfor2 (py_iter2 it_14) [v_converter; v_name_format] (fun st_15 x_16 => match st_15 with [v_converter; v_name_format] =>
+       (let v_converter := x_16 in
+       (match p2_branch (p2_in (p2_lower v_name) (p2_or (p2_attr v_converter "_fro") (PObj []))) with
+       | BTrue => (py_bindS (fun n_19 => (ExcS n_19 [v_converter; v_name_format])) (p2_attr v_converter "name_format") (fun v_name_format =>
+       (BrkS [v_converter; v_name_format])))
+       | BFalse => (NextS [v_converter; v_name_format])
+       | BExc n_20 => (ExcS n_20 [v_converter; v_name_format])
+       | BErr => (RetS PErr)
+       end))
+      | _ => RetS PErr end) with
+      | NextS st_15 => match st_15 with [v_converter; v_name_format] => (k_22 v_converter v_name_format) | _ => (RetS PErr) end
+      | BrkS st_15 => match st_15 with [v_converter; v_name_format] => (k_22 v_converter v_name_format) | _ => (RetS PErr) end
+      | RetS r_17 => (RetS r_17)
+      | ExcS n_18 st_15 => match st_15 with [v_converter; v_name_format] => (ExcS n_18 [v_friendly_name; v_name; v_name_format; v_is_required; v_converter; v_items]) | _ => (RetS PErr) end
+      end)))
+      | BFalse => (k_22 v_converter v_name_format)
+      | BExc n_22 => (ExcS n_22 [v_friendly_name; v_name; v_name_format; v_is_required; v_converter; v_items])
+      | BErr => (RetS PErr)
+      end)) in
      (match p2_branch (p2_not v_friendly_name) with
-     | BTrue => (py_bindS (fun n_25 => (ExcS n_25 [v_friendly_name; v_name; v_name_format; v_is_required; v_converter; v_items])) (p2_iter_check v_attribute_converters) (fun it_14 =>
-     (match pyfor2 (py_iter2 it_14) [v_converter; v_friendly_name; v_name_format] (fun st_15 x_16 => match st_15 with [v_converter; v_friendly_name; v_name_format] =>
-      (let v_converter := x_16 in
-      (py_bindS (fun n_24 => (if exc_matches n_24 ["KeyError"]
+     | BTrue => (py_bindS (fun n_35 => (ExcS n_35 [v_friendly_name; v_name; v_name_format; v_is_required; v_converter; v_items])) (p2_iter_check v_attribute_converters) (fun it_24 =>
+     (match pyfor2 (py_iter2 it_24) [v_converter; v_friendly_name; v_name_format] (fun st_25 x_26 => match st_25 with [v_converter; v_friendly_name; v_name_format] =>
+      (let v_converter := x_26 in
+      (py_bindS (fun n_34 => (if exc_matches n_34 ["KeyError"]
       then (NextS [v_converter; v_friendly_name; v_name_format])
-      else (ExcS n_24 [v_converter; v_friendly_name; v_name_format]))) (p2_getitem (p2_attr v_converter "_fro") (p2_lower v_name)) (fun v_friendly_name =>
-      (let k_22 := fun v_name_format =>
+      else (ExcS n_34 [v_converter; v_friendly_name; v_name_format]))) (p2_getitem (p2_attr v_converter "_fro") (p2_lower v_name)) (fun v_friendly_name =>
+      (let k_32 := fun v_name_format =>
        (BrkS [v_converter; v_friendly_name; v_name_format]) in
       (match p2_branch (p2_not v_name_format) with
-      | BTrue => (py_bindS (fun n_21 => (ExcS n_21 [v_converter; v_friendly_name; v_name_format])) (p2_attr v_converter "name_format") (fun v_name_format =>
-      (k_22 v_name_format)))
-      | BFalse => (k_22 v_name_format)
-      | BExc n_22 => (ExcS n_22 [v_converter; v_friendly_name; v_name_format])
+      | BTrue => (py_bindS (fun n_31 => (ExcS n_31 [v_converter; v_friendly_name; v_name_format])) (p2_attr v_converter "name_format") (fun v_name_format =>
+      (k_32 v_name_format)))
+      | BFalse => (k_32 v_name_format)
+      | BExc n_32 => (ExcS n_32 [v_converter; v_friendly_name; v_name_format])
       | BErr => (RetS PErr)
       end)))))
      | _ => RetS PErr end) with
-     | NextS st_15 => match st_15 with [v_converter; v_friendly_name; v_name_format] => (k_26 v_converter v_friendly_name v_name_format) | _ => (RetS PErr) end
-     | BrkS st_15 => match st_15 with [v_converter; v_friendly_name; v_name_format] => (k_26 v_converter v_friendly_name v_name_format) | _ => (RetS PErr) end
-     | RetS r_17 => (RetS r_17)
-     | ExcS n_18 st_15 => match st_15 with [v_converter; v_friendly_name; v_name_format] => (ExcS n_18 [v_friendly_name; v_name; v_name_format; v_is_required; v_converter; v_items]) | _ => (RetS PErr) end
+     | NextS st_25 => match st_25 with [v_converter; v_friendly_name; v_name_format] => (k_36 v_converter v_friendly_name v_name_format) | _ => (RetS PErr) end
+     | BrkS st_25 => match st_25 with [v_converter; v_friendly_name; v_name_format] => (k_36 v_converter v_friendly_name v_name_format) | _ => (RetS PErr) end
+     | RetS r_27 => (RetS r_27)
+     | ExcS n_28 st_25 => match st_25 with [v_converter; v_friendly_name; v_name_format] => (ExcS n_28 [v_friendly_name; v_name; v_name_format; v_is_required; v_converter; v_items]) | _ => (RetS PErr) end
      end)))
-     | BFalse => (k_26 v_converter v_friendly_name v_name_format)
-     | BExc n_26 => (ExcS n_26 [v_friendly_name; v_name; v_name_format; v_is_required; v_converter; v_items])
+     | BFalse => (k_36 v_converter v_friendly_name v_name_format)
+     | BExc n_36 => (ExcS n_36 [v_friendly_name; v_name; v_name_format; v_is_required; v_converter; v_items])
      | BErr => (RetS PErr)
      end)) in
     (match p2_branch (p2_not v_name) with
-    | BTrue => (py_bindS (fun n_39 => (ExcS n_39 [v_friendly_name; v_name; v_name_format; v_is_required; v_converter; v_items])) (p2_iter_check v_attribute_converters) (fun it_28 =>
-    (match pyfor2 (py_iter2 it_28) [v_converter; v_name; v_name_format] (fun st_29 x_30 => match st_29 with [v_converter; v_name; v_name_format] =>
-     (let v_converter := x_30 in
-     (py_bindS (fun n_38 => (if exc_matches n_38 ["KeyError"]
+    | BTrue => (py_bindS (fun n_49 => (ExcS n_49 [v_friendly_name; v_name; v_name_format; v_is_required; v_converter; v_items])) (p2_iter_check v_attribute_converters) (fun it_38 =>
+    (match pyfor2 (py_iter2 it_38) [v_converter; v_name; v_name_format] (fun st_39 x_40 => match st_39 with [v_converter; v_name; v_name_format] =>
+     (let v_converter := x_40 in
+     (py_bindS (fun n_48 => (if exc_matches n_48 ["KeyError"]
      then (NextS [v_converter; v_name; v_name_format])
-     else (ExcS n_38 [v_converter; v_name; v_name_format]))) (p2_getitem (p2_attr v_converter "_to") (p2_lower v_friendly_name)) (fun v_name =>
-     (let k_36 := fun v_name_format =>
+     else (ExcS n_48 [v_converter; v_name; v_name_format]))) (p2_getitem (p2_attr v_converter "_to") (p2_lower v_friendly_name)) (fun v_name =>
+     (let k_46 := fun v_name_format =>
       (BrkS [v_converter; v_name; v_name_format]) in
      (match p2_branch (p2_not v_name_format) with
-     | BTrue => (py_bindS (fun n_35 => (ExcS n_35 [v_converter; v_name; v_name_format])) (p2_attr v_converter "name_format") (fun v_name_format =>
-     (k_36 v_name_format)))
-     | BFalse => (k_36 v_name_format)
-     | BExc n_36 => (ExcS n_36 [v_converter; v_name; v_name_format])
+     | BTrue => (py_bindS (fun n_45 => (ExcS n_45 [v_converter; v_name; v_name_format])) (p2_attr v_converter "name_format") (fun v_name_format =>
+     (k_46 v_name_format)))
+     | BFalse => (k_46 v_name_format)
+     | BExc n_46 => (ExcS n_46 [v_converter; v_name; v_name_format])
      | BErr => (RetS PErr)
      end)))))
     | _ => RetS PErr end) with
-    | NextS st_29 => match st_29 with [v_converter; v_name; v_name_format] => (k_40 v_converter v_name v_name_format) | _ => (RetS PErr) end
-    | BrkS st_29 => match st_29 with [v_converter; v_name; v_name_format] => (k_40 v_converter v_name v_name_format) | _ => (RetS PErr) end
-    | RetS r_31 => (RetS r_31)
-    | ExcS n_32 st_29 => match st_29 with [v_converter; v_name; v_name_format] => (ExcS n_32 [v_friendly_name; v_name; v_name_format; v_is_required; v_converter; v_items]) | _ => (RetS PErr) end
+    | NextS st_39 => match st_39 with [v_converter; v_name; v_name_format] => (k_50 v_converter v_name v_name_format) | _ => (RetS PErr) end
+    | BrkS st_39 => match st_39 with [v_converter; v_name; v_name_format] => (k_50 v_converter v_name v_name_format) | _ => (RetS PErr) end
+    | RetS r_41 => (RetS r_41)
+    | ExcS n_42 st_39 => match st_39 with [v_converter; v_name; v_name_format] => (ExcS n_42 [v_friendly_name; v_name; v_name_format; v_is_required; v_converter; v_items]) | _ => (RetS PErr) end
     end)))
-    | BFalse => (k_40 v_converter v_name v_name_format)
-    | BExc n_40 => (ExcS n_40 [v_friendly_name; v_name; v_name_format; v_is_required; v_converter; v_items])
+    | BFalse => (k_50 v_converter v_name v_name_format)
+    | BExc n_50 => (ExcS n_50 [v_friendly_name; v_name; v_name_format; v_is_required; v_converter; v_items])
     | BErr => (RetS PErr)
     end))
-    | BExc n_42 => (ExcS n_42 [v_friendly_name; v_name; v_name_format; v_is_required; v_converter; v_items])
+    | BExc n_52 => (ExcS n_52 [v_friendly_name; v_name; v_name_format; v_is_required; v_converter; v_items])
     | BErr => (RetS PErr)
     end))))))))))
    | _ => RetS PErr end) with
